@@ -2,7 +2,8 @@
 dict constructor, wrap_namespace classification (A13.wrapns), tensor-product operators (A15.products)."""
 import ast
 
-from ..kfun import Ev, calls_in, eval_function, is_call_to, paths, strip_seq
+from ..kfun import Ev, calls_in, eval_function, is_call_to, paths, same, strip_seq
+from ..tutil import atom, cases, expand, specialise, unseq
 from ..model import AnalysisError, norm_text
 from ..terms import T, walk
 from .common import loc_of
@@ -110,9 +111,25 @@ def toposort(ctx, world):
 
 
 # ------------------------------------------------------------------------------------------- container vspaces
+def _self_sym(cref):
+    return T("sym", name="self", role="param", cls=cref)
+
+
+VS_VOCAB = ("_map", "_values", "_kv_pairs", "_subval", "seq_type")
+
+
+def _elem(t, src, i=None):
+    """t is the loop element of `src` (component i of it when i is given)"""
+    if i is None:
+        return t.op == "iterelem" and t.src is src
+    return t.op == "sub" and t.obj.op == "iterelem" and t.obj.src is src and t.idx.op == "const" and t.idx.value == i
+
+
 def container_vspaces(ctx, world):
-    ctx.describe("A14.vspace", "ContainerVSpace arithmetic (_add, _mut_add, _scalar_mul, _covector, _inner_prod, zeros, ones, randn) maps the SAME-NAMED operation of each child space over the children with the operands in the same order; Sequence/Dict spaces build values in the order / under the keys of self.shape; container_untake accumulates component-wise with _mut_add(accumulator, contribution) and rebuilds with _subval; autograd's dict constructor passes keys and values of the same dict")
-    m = world.repo.mod("autograd.builtins")
+    ctx.describe("A14.vspace", "ContainerVSpace arithmetic (_add, _mut_add, _scalar_mul, _covector, _inner_prod, zeros, ones, randn) maps the SAME-NAMED operation of each child space over the children with the operands in the same order; Sequence/Dict spaces build values in the order / under the keys of self.shape; container_untake accumulates component-wise with _mut_add(accumulator, contribution) and rebuilds with _subval; autograd's dict constructor passes keys and values of the same dict.  Decided on the evaluated method bodies (helper methods inlined, loops and comprehensions in one normal form)")
+    ev = world.ev
+    B = "autograd.builtins"
+    m = world.repo.mod(B)
     r = world.repo.resolve(m, "ContainerVSpace")
     if r is None or r.kind != "repo":
         raise AnalysisError("builtins.ContainerVSpace vanished")
@@ -123,29 +140,32 @@ def container_vspaces(ctx, world):
         n += 1
         inst = f"ContainerVSpace.{st.name}"
         loc = loc_of(m, st)
-        params = [a.arg for a in st.args.args[1:]]
-        lam = [x for x in ast.walk(st) if isinstance(x, ast.Lambda)]
-        maps = [c for c in ast.walk(st) if isinstance(c, ast.Call) and isinstance(c.func, ast.Attribute) and c.func.attr == "_map"]
+        selfs = _self_sym(r)
+        res, sy, m_, fn_, sc_ = eval_function(world, B, f"ContainerVSpace.{st.name}", bind={st.args.args[0].arg: selfs})
+        res = unseq(expand(ev, res, (), keep_attrs=VS_VOCAB)) if res is not None else None
+        params = [sy[a.arg] for a in st.args.args[1:]]
         ok = False
         why = "body is not self._map(lambda vs, ...: vs.<op>(...), operands...)"
-        if len(lam) == 1 and len(maps) == 1 and maps[0].args and maps[0].args[0] is lam[0]:
-            l = lam[0]
-            lp = [a.arg for a in l.args.args]
-            b = l.body
-            if isinstance(b, ast.Call) and isinstance(b.func, ast.Attribute) and isinstance(b.func.value, ast.Name) and b.func.value.id == lp[0]:
-                same_name = b.func.attr == st.name
-                # array operands of the map, in order
-                mapped = [a.id for a in maps[0].args[1:] if isinstance(a, ast.Name)]
-                arr_params = [p for p in params if p in mapped]
-                order_ok = mapped == arr_params
-                # inside the lambda: the child operands in the same order, then the non-mapped (scalar) parameters
-                call_args = [a.id if isinstance(a, ast.Name) else None for a in b.args]
-                want = lp[1:] + [p for p in params if p not in mapped]
-                ok = same_name and order_ok and call_args == want
-                if not same_name:
-                    why = f"delegates to the children's `{b.func.attr}`, not `{st.name}`"
-                elif not ok:
-                    why = f"operands are passed as {call_args}, expected {want}"
+        maps = [t for t in walk(res) if t.op == "call" and t.fn.op == "attr" and t.fn.name == "_map" and t.fn.obj is selfs] if res is not None else []
+        if len(maps) == 1 and maps[0].args and not maps[0].kw:
+            mp = maps[0]
+            clo, pre, prekw = ev.as_closure(mp.args[0])
+            mapped = list(mp.args[1:])
+            arr_params = [p_ for p_ in params if any(p_ is a for a in mapped)]
+            order_ok = len(mapped) == len(arr_params) and all(a is b for a, b in zip(mapped, arr_params))
+            if clo is not None and not pre and not prekw:
+                vs = T("sym", name="vs", role="param")
+                kids = [T("sym", name=f"child{i}", role="param") for i in range(len(mapped))]
+                body = unseq(expand(ev, ev.apply(clo, [vs] + kids, {}, []), ()))
+                if body.op == "call" and body.fn.op == "attr" and body.fn.obj is vs and not body.kw:
+                    same_name = body.fn.name == st.name
+                    want = kids + [p_ for p_ in params if not any(p_ is a for a in mapped)]
+                    args_ok = len(body.args) == len(want) and all(a is b for a, b in zip(body.args, want))
+                    ok = same_name and order_ok and args_ok
+                    if not same_name:
+                        why = f"delegates to the children's `{body.fn.name}`, not `{st.name}`"
+                    elif not ok:
+                        why = f"operands are passed as {[str(a) for a in body.args]}, expected {[str(a) for a in want]}"
         _ok(ctx, "A14.vspace", inst, ok, loc, f"autograd.builtins.{inst}", f"{inst}: {why}", "a tuple/list/dict of arrays that receives two contributions (fan-out) or is scaled: the children are combined with the wrong operation / operand order")
     # Sequence / Dict construction order
     for cname, checks in (("SequenceVSpace", ("_map", "_subval")), ("DictVSpace", ("_map", "_subval")), ("NamedTupleVSpace", ("_map", "_subval"))):
@@ -158,79 +178,110 @@ def container_vspaces(ctx, world):
             n += 1
             inst = f"{cname}.{st.name}"
             loc = loc_of(m, st)
-            src = norm_text(st)
+            selfs = _self_sym(cr)
+            res, sy, m_, fn_, sc_ = eval_function(world, B, f"{cname}.{st.name}", bind={st.args.args[0].arg: selfs})
+            res = unseq(expand(ev, res, {"autograd.util.subvals"}, keep_attrs=VS_VOCAB)) if res is not None else None
+            ps = [sy[a.arg] for a in st.args.args[1:]]
+            star = sy.get(st.args.vararg.arg) if st.args.vararg else None
+            is_shape = lambda t: t.op == "attr" and t.name == "shape" and t.obj is selfs
+            ok = False
             if st.name == "_map":
+                f = ps[0] if ps else None
                 if cname == "DictVSpace":
-                    dc = [x for x in ast.walk(st) if isinstance(x, ast.DictComp)]
-                    ok = False
-                    if len(dc) == 1:
-                        g = dc[0].generators[0]
-                        it = g.iter
-                        ok = isinstance(it, ast.Call) and isinstance(it.func, ast.Attribute) and it.func.attr == "items" and isinstance(it.func.value, ast.Attribute) and it.func.value.attr == "shape"
-                        kv = [e.id for e in g.target.elts if isinstance(e, ast.Name)] if isinstance(g.target, ast.Tuple) else []
-                        ok = ok and len(kv) == 2 and isinstance(dc[0].key, ast.Name) and dc[0].key.id == kv[0]
-                        # children selected by the same key
-                        subs = [x for x in ast.walk(dc[0].value) if isinstance(x, ast.Subscript) and isinstance(x.slice, ast.Name)]
-                        ok = ok and bool(subs) and all(x.slice.id == kv[0] for x in subs)
                     why = "does not build {k: f(vs, *[x[k] for x in args]) for k, vs in self.shape.items()}"
+                    d = res
+                    if d is not None and d.op == "call" and d.fn.op == "ref" and d.fn.ref.qual == "builtins.dict" and len(d.args) == 1:
+                        d = d.args[0]
+                    if d is not None and d.op == "comp" and not d.conds and d.elt.op == "tuple" and len(d.elt.elts) == 2:
+                        src = d.src
+                        src_ok = src.op == "call" and src.fn.op == "attr" and src.fn.name == "items" and is_shape(src.fn.obj) and not src.args
+                        k, v = d.elt.elts
+                        key_ok = _elem(k, src, 0)
+                        val_ok = False
+                        if v.op == "call" and v.fn is f and len(v.args) == 2 and _elem(v.args[0], src, 1) and v.args[1].op == "star":
+                            inner = v.args[1].x
+                            if inner.op == "comp" and inner.src is star and not inner.conds:
+                                e = inner.elt
+                                val_ok = e.op == "sub" and _elem(e.obj, star) and _elem(e.idx, src, 0)
+                        ok = src_ok and key_ok and val_ok
                 else:
-                    mp = [c for c in ast.walk(st) if isinstance(c, ast.Call) and isinstance(c.func, ast.Name) and c.func.id == "map"]
-                    ok = len(mp) == 1 and len(mp[0].args) == 3 and isinstance(mp[0].args[1], ast.Attribute) and mp[0].args[1].attr == "shape" and isinstance(mp[0].args[2], ast.Starred)
                     why = "does not map f over (self.shape, *args) in that order"
+                    t = res
+                    # seq_type(map(f, self.shape, *args))
+                    if t is not None and t.op == "call" and len(t.args) == 1 and not t.kw:
+                        t = t.args[0]
+                        if t.op == "star":  # namedtuple types take the fields as separate arguments
+                            t = t.x
+                    if t is not None and t.op == "call" and t.fn.op == "ref" and t.fn.ref.qual == "builtins.map" and len(t.args) == 3:
+                        ok = t.args[0] is f and is_shape(t.args[1]) and t.args[2].op == "star" and t.args[2].x is star
+                    elif t is not None and t.op == "comp" and not t.conds:
+                        z = t.src
+                        if is_call_to(z, "builtins.zip") and len(z.args) == 2 and is_shape(z.args[0]) and z.args[1].op == "star" and z.args[1].x is star:
+                            e = t.elt
+                            ok = e.op == "call" and e.fn is f and bool(e.args) and _elem(e.args[0], z, 0)
             else:
+                xs, idx, x = ps[0], ps[1], ps[2]
                 if cname == "DictVSpace":
-                    ps = [a.arg for a in st.args.args]
-                    stores = [x for x in ast.walk(st) if isinstance(x, ast.Assign) and isinstance(x.targets[0], ast.Subscript)]
-                    ok = len(stores) == 1 and isinstance(stores[0].targets[0].slice, ast.Name) and stores[0].targets[0].slice.id == ps[2] and isinstance(stores[0].value, ast.Name) and stores[0].value.id == ps[3]
                     why = "does not store x under idx in a copy of xs"
+                    # store(copy-of-xs, idx, x)
+                    t = res
+                    ok = t is not None and t.op == "store" and t.idx is idx and t.val is x and any(y is xs for y in walk(t.obj)) and t.obj is not xs
                 else:
-                    sv = [c for c in ast.walk(st) if isinstance(c, ast.Call) and isinstance(c.func, ast.Name) and c.func.id == "subvals"]
-                    ps = [a.arg for a in st.args.args]
-                    ok = len(sv) == 1 and isinstance(sv[0].args[0], ast.Name) and sv[0].args[0].id == ps[1] and isinstance(sv[0].args[1], ast.List) and len(sv[0].args[1].elts) == 1 and isinstance(sv[0].args[1].elts[0], ast.Tuple) and [getattr(e, "id", None) for e in sv[0].args[1].elts[0].elts] == [ps[2], ps[3]]
                     why = "does not rebuild the sequence with subvals(xs, [(idx, x)])"
+                    sv = [t for t in walk(res) if is_call_to(t, "autograd.util.subvals")] if res is not None else []
+                    ok = len(sv) == 1 and len(sv[0].args) == 2 and sv[0].args[0] is xs and sv[0].args[1].op in ("list", "tuple") and len(sv[0].args[1].elts) == 1 and sv[0].args[1].elts[0].op == "tuple" and len(sv[0].args[1].elts[0].elts) == 2 and sv[0].args[1].elts[0].elts[0] is idx and sv[0].args[1].elts[0].elts[1] is x
             _ok(ctx, "A14.vspace", inst, ok, loc, f"autograd.builtins.{inst}", f"{inst} {why}", "gradient w.r.t. one element of a nested container / standard_basis of a container space")
     # container_untake
-    m2, fn = world.repo.find_def("autograd.builtins", "container_untake")
+    res, sy, m2, fn, sc_ = eval_function(world, B, "container_untake")
     ps = [a.arg for a in fn.args.args]  # x, idx, vs
-    lams = [x for x in ast.walk(fn) if isinstance(x, ast.Lambda)]
-    ok_slice = ok_item = False
-    for l in lams:
-        lp = l.args.args[0].arg
-        b = l.body
-        if isinstance(b, ast.ListComp):
-            g = b.generators[0]
-            z = g.iter
-            e = b.elt
-            if isinstance(z, ast.Call) and isinstance(z.func, ast.Name) and z.func.id == "zip" and len(z.args) == 3 and isinstance(g.target, ast.Tuple) and len(g.target.elts) == 3:
-                tv = [t.id for t in g.target.elts]
-                z_ok = isinstance(z.args[0], ast.Subscript) and isinstance(z.args[0].value, ast.Attribute) and z.args[0].value.attr == "shape" and isinstance(z.args[1], ast.Name) and z.args[1].id == lp and isinstance(z.args[2], ast.Name) and z.args[2].id == ps[0]
-                e_ok = isinstance(e, ast.Call) and isinstance(e.func, ast.Attribute) and e.func.attr == "_mut_add" and isinstance(e.func.value, ast.Name) and e.func.value.id == tv[0] and [getattr(a, "id", None) for a in e.args] == [tv[1], tv[2]]
-                ok_slice = z_ok and e_ok
-        elif isinstance(b, ast.Call) and isinstance(b.func, ast.Attribute) and b.func.attr == "_mut_add":
-            ok_item = [getattr(a, "id", None) for a in b.args] == [lp, ps[0]] and isinstance(b.func.value, ast.Subscript) and isinstance(b.func.value.value, ast.Attribute) and b.func.value.value.attr == "shape" and isinstance(b.func.value.slice, ast.Name) and b.func.value.slice.id == ps[1]
-    n += 2
+    xs, idxs, vss = sy[ps[0]], sy[ps[1]], sy[ps[2]]
+    res = unseq(res) if res is not None else None
+    ok_slice = ok_item = ok_sub = False
+    so = [t for t in walk(res) if is_call_to(t, "autograd.core.SparseObject")] if res is not None else []
+    if len(so) == 1 and len(so[0].args) == 2 and so[0].args[0] is vss:
+        clo, pre, prekw = ev.as_closure(so[0].args[1])
+        if clo is not None and not pre and not prekw:
+            A = T("sym", name="A", role="param")
+            body = unseq(expand(ev, ev.apply(clo, [A], {}, []), (), keep_attrs=VS_VOCAB + ("_mut_add",)))
+            is_slice_test = lambda a: a.op == "call" and a.fn.op == "ref" and a.fn.ref.qual in ("builtins.isinstance", "autograd.builtins.isinstance") and len(a.args) == 2 and a.args[0] is idxs and a.args[1].op == "ref" and a.args[1].ref.qual == "builtins.slice"
+            dec = lambda val: (lambda a: val if is_slice_test(a) else None)
+            is_cur = lambda t: t.op == "sub" and t.obj is A and t.idx is idxs
+            is_child = lambda t: t.op == "sub" and t.obj.op == "attr" and t.obj.name == "shape" and t.obj.obj is vss and t.idx is idxs
+            def sub_call(b):
+                """b == vs._subval(A, idx, <acc>) -> acc"""
+                if b.op == "call" and b.fn.op == "attr" and b.fn.name == "_subval" and b.fn.obj is vss and len(b.args) == 3 and b.args[0] is A and b.args[1] is idxs:
+                    return b.args[2]
+                return None
+            bs, bi = specialise(body, dec(True)), specialise(body, dec(False))
+            acc_s, acc_i = sub_call(bs), sub_call(bi)
+            ok_sub = acc_s is not None and acc_i is not None
+            if acc_s is not None:
+                c = acc_s
+                if c.op == "call" and c.fn.op == "ref" and c.fn.ref.qual == "builtins.list" and len(c.args) == 1:
+                    c = c.args[0]
+                if c.op == "comp" and not c.conds and c.get("kind") in ("ListComp", "GeneratorExp"):
+                    z = c.src
+                    z_ok = is_call_to(z, "builtins.zip") and len(z.args) == 3 and is_child(z.args[0]) and is_cur(z.args[1]) and z.args[2] is xs
+                    e = c.elt
+                    e_ok = e.op == "call" and e.fn.op == "attr" and e.fn.name == "_mut_add" and _elem(e.fn.obj, z, 0) and len(e.args) == 2 and _elem(e.args[0], z, 1) and _elem(e.args[1], z, 2)
+                    ok_slice = bool(z_ok and e_ok)
+            if acc_i is not None:
+                b = acc_i
+                ok_item = b.op == "call" and b.fn.op == "attr" and b.fn.name == "_mut_add" and is_child(b.fn.obj) and len(b.args) == 2 and is_cur(b.args[0]) and b.args[1] is xs
+    n += 3
     _ok(ctx, "A14.vspace", "container_untake: slice branch zips (child spaces, accumulator, contribution) and _mut_add(acc, contrib)", ok_slice, loc_of(m2, fn), "autograd.builtins.container_untake:slice", "the slice branch of container_untake does not accumulate [vs._mut_add(a, b) for vs, a, b in zip(vs.shape[idx], result, x)]", "gradient through a slice of a traced tuple/list, t[1:3], used together with another use of t")
     _ok(ctx, "A14.vspace", "container_untake: item branch vs.shape[idx]._mut_add(accumulator, contribution)", ok_item, loc_of(m2, fn), "autograd.builtins.container_untake:item", "the item branch of container_untake is not vs.shape[idx]._mut_add(result, x)", "gradient through t[i] used together with another use of t")
-    inner = [s for s in fn.body if isinstance(s, ast.FunctionDef)]
-    ok_sub = False
-    if inner:
-        e = inner[0].body[0].value if isinstance(inner[0].body[0], ast.Return) else None
-        ap = inner[0].args.args[0].arg
-        if isinstance(e, ast.Call) and isinstance(e.func, ast.Attribute) and e.func.attr == "_subval" and len(e.args) == 3:
-            a0, a1, a2 = e.args
-            ok_sub = isinstance(a0, ast.Name) and a0.id == ap and isinstance(a1, ast.Name) and a1.id == ps[1] and isinstance(a2, ast.Call) and a2.args and isinstance(a2.args[0], ast.Subscript) and isinstance(a2.args[0].value, ast.Name) and a2.args[0].value.id == ap and isinstance(a2.args[0].slice, ast.Name) and a2.args[0].slice.id == ps[1]
-    n += 1
     _ok(ctx, "A14.vspace", "container_untake: mut_add(A) = vs._subval(A, idx, accum(A[idx]))", ok_sub, loc_of(m2, fn), "autograd.builtins.container_untake:subval", "container_untake's mut_add does not rebuild A with the accumulated component at the same index", "gradient through t[i]")
     # dict constructor
-    m3, dn = world.repo.find_def("autograd.builtins", "dict.__new__")
+    res, sy, m3, dn, sc_ = eval_function(world, B, "dict.__new__")
     ok = False
-    for x in ast.walk(dn):
-        if isinstance(x, ast.Call) and isinstance(x.func, ast.Name) and x.func.id == "_make_dict" and len(x.args) == 2:
+    for x in (walk(res) if res is not None else []):
+        if is_call_to(x, "autograd.builtins._make_dict") and len(x.args) == 2 and not x.kw:
             k, v = x.args
-            kb = k.func.value if isinstance(k, ast.Call) and isinstance(k.func, ast.Attribute) and k.func.attr == "keys" else None
-            vv = v.args[0] if isinstance(v, ast.Call) and isinstance(v.func, ast.Name) and v.func.id == "list" and v.args else v
-            vb = vv.func.value if isinstance(vv, ast.Call) and isinstance(vv.func, ast.Attribute) and vv.func.attr == "values" else None
-            ok = isinstance(kb, ast.Name) and isinstance(vb, ast.Name) and kb.id == vb.id
+            kb = k.fn.obj if k.op == "call" and k.fn.op == "attr" and k.fn.name == "keys" and not k.args else None
+            vv = v.args[0] if v.op == "call" and v.fn.op == "ref" and v.fn.ref.qual.rsplit(".", 1)[-1] in ("list", "tuple") and len(v.args) == 1 else v
+            vb = vv.fn.obj if vv.op == "call" and vv.fn.op == "attr" and vv.fn.name == "values" and not vv.args else None
+            ok = kb is not None and vb is not None and (kb is vb or same(kb, vb))
     n += 1
     _ok(ctx, "A14.vspace", "autograd dict(...): _make_dict(d.keys(), list(d.values())) of the same dict", ok, loc_of(m3, dn), "autograd.builtins.dict.__new__", "the dict constructor does not hand keys and values of the same dict, in matching order, to _make_dict", "autograd.dict({...}) of traced values")
     ctx.floor("A14.vspace clauses", n, 14)
